@@ -12,7 +12,7 @@ TEXT ·ShapeJE(SB), NOSPLIT, $0-0
 	MOVQ	AX, ·Result(SB)
 	RET
 je_eq:
-	MOVQ	$100, AX
+	MOVQ	$-100, AX
 	MOVQ	AX, ·Result(SB)
 	RET
 
@@ -24,7 +24,7 @@ TEXT ·ShapeJBE(SB), NOSPLIT, $0-0
 	MOVQ	AX, ·Result(SB)
 	RET
 jbe_le:
-	MOVQ	$200, AX
+	MOVQ	$-200, AX
 	ADDQ	·Input(SB), AX
 	MOVQ	AX, ·Result(SB)
 	RET
@@ -37,7 +37,7 @@ TEXT ·ShapeJG(SB), NOSPLIT, $0-0
 	MOVQ	AX, ·Result(SB)
 	RET
 jg_gt:
-	MOVQ	$300, AX
+	MOVQ	$-300, AX
 	ADDQ	·Input(SB), AX
 	MOVQ	AX, ·Result(SB)
 	RET
@@ -51,6 +51,7 @@ TEXT ·ShapeJMP(SB), NOSPLIT, $0-0
 	MOVQ	AX, ·Result(SB)
 	RET
 jm_far:
+	SUBQ	$1000, AX
 	ADDQ	AX, AX
 	MOVQ	AX, ·Result(SB)
 	RET
@@ -107,7 +108,7 @@ TEXT ·ShapeCMPM(SB), NOSPLIT, $0-0
 	MOVQ	AX, ·Result(SB)
 	RET
 cm_eq:
-	MOVQ	$2, AX
+	MOVQ	$-2, AX
 	MOVQ	AX, ·Result(SB)
 	RET
 
